@@ -713,12 +713,14 @@ class CallGraphQuery:
         """
         Yields at most `size` records from query.
         """
-        query = self.build().clone(
-            executions=self._executions.limit(size),
-            jobs=self._jobs.limit(size),
-            call_nodes=self._call_nodes.limit(size),
-            tasks=self._tasks.limit(size),
-            values=self._values.limit(size),
+        # Limit the built subqueries: joins and filters are only applied by build().
+        built = self.build()
+        query = built.clone(
+            executions=built._executions.limit(size),
+            jobs=built._jobs.limit(size),
+            call_nodes=built._call_nodes.limit(size),
+            tasks=built._tasks.limit(size),
+            values=built._values.limit(size),
         )
         yield from islice(query.all(), 0, size)
 
